@@ -4,6 +4,7 @@ import os
 import random
 from vlib import common, prog
 from . import runmodeslib as L
+from . import lifecyclelib as LC
 
 LEVEL = 'model_checking'
 
@@ -47,7 +48,10 @@ def run(ck, replay=None):
                       'and final output = the sequential meaning Seq(P); the table of programs (every pipeline, plus pairs joined by ;) with '
                       'Seq(P) is exported, each program is rendered to murex and executed %d times under seeded random yields/sleeps at the '
                       'hook points (process start/teardown, every pipe lock region), and stdout, stderr and exit number of every run must equal '
-                      'Seq(P); the C04/C05 chain programs (operators ; && || | in normal/try/trypipe mode) are re-run the same way.  '
+                      'Seq(P); the C04/C05 chain programs (operators ; && || | in normal/try/trypipe mode) are re-run the same way.  Lifecycle.tla (scheduler, '
+                      'process and waiter goroutines, WaitForTermination rendezvous) is model-checked for deadlock freedom, termination, sequential start and '
+                      'release-once, and bound to the code: the chain programs with true/false commands run with the scheduler / process gates logged in one '
+                      'total order and TLC validates every log against LifecycleTrace.tla (gates = actions, the rendezvous and the scheduler bookkeeping silent).  '
                       'non-trivial = at least two concurrent stages or a conditional operator; distinct = different programs.' % K)
     ck.assumptions += ['vocabulary: a (mkarray), foreach, out, err, mtac, cast, if/else, switch, variables and string expressions, functions, ; newline && || try trypipe - no bg, timers or randomness',
                        'at most one stage of a pipeline writes to the shared stderr (otherwise interleaving there is by design)',
@@ -146,8 +150,67 @@ def run(ck, replay=None):
                 nontriv.add(src)
                 if len(ck.cov['samples']) < 4 and kind == 'pipe' and len(c['prog']) == 1 and len(c['prog'][0]['stages']) == 3:
                     ck.sample({'src': src, 'expected_stdout': eo, 'expected_stderr': ee, 'runs': K})
+    # Lifecycle.tla bound to the real scheduler: gate logs of the chain programs (true/false commands) validated by TLC
+    lcases = list(chains)
+    if not quick:
+        rng.shuffle(lcases)
+        lcases = lcases[:6000]
+    for rep in range(1 if quick else 3):
+        ok += LC.run_binding(ck, lcases, perturb=(ck.seed * 1000 + 13 + 100 * rep) if rep != 1 else 0, tag='lc%d' % rep)
     ck.cov['traces_validated_against_impl'] = ok
     ck.cov['distinct_nontrivial'] = len(nontriv)
     ck.cov['exhaustive'] = False
     if not ck.violations and len(nontriv) < 200:
         raise common.Infra('vacuous: %d non-trivial programs' % len(nontriv))
+
+
+def selftest(ck):
+    """binding demonstration for LifecycleTrace.tla: corrupted gate logs must be rejected"""
+    import copy
+    cases = [c for c in L.gen_cases(ck, 3, ['normal', 'try', 'trypipe'])]
+    traces = LC.record(ck, cases, 0, 'st')
+    ok0, rej0 = LC.validate(ck, traces, 'st0')
+    common.log('selftest: %d pristine logs -> %d accepted, %d rejected' % (len(traces), ok0, len(rej0)))
+    good = not rej0
+
+    def first(pred):
+        for i in sorted(traces):
+            if pred(cases[i], traces[i]):
+                return i
+        raise common.Infra('selftest: no suitable trace')
+
+    def pos(lines, ev, k=None):
+        for n, x in enumerate(lines):
+            if x['ev'] == ev and (k is None or x.get('k') == k):
+                return n
+        return None
+
+    # 1. normal mode, `a ; b`: the second command is started before the first one was about to signal its end
+    i = first(lambda c, t: c['mode'] == 'normal' and len(c['prog']) == 2 and c['prog'][1]['op'] == ';')
+    t = copy.deepcopy(traces[i])
+    d1 = pos(t, 'proc.destroy', 1)
+    spawns = [n for n, x in enumerate(t) if x['ev'] == 'rm.spawn']
+    x = t.pop(spawns[1])
+    t.insert(d1, x)
+    _, r1 = LC.validate(ck, {i: t}, 'st1')
+    common.log('selftest: second spawn of `%s` moved before proc.destroy(1) -> %s' % (LC.render(cases[i]), 'rejected' if r1 else 'ACCEPTED'))
+    # 2. a pipeline `a | b`: the later stage is about to signal its end before the earlier one is
+    i = first(lambda c, t: c['mode'] == 'normal' and len(c['prog']) == 2 and c['prog'][1]['op'] == '|')
+    t = copy.deepcopy(traces[i])
+    a, b = pos(t, 'proc.destroy', 1), pos(t, 'proc.destroy', 2)
+    t[a], t[b] = t[b], t[a]
+    _, r2 = LC.validate(ck, {i: t}, 'st2')
+    common.log('selftest: proc.destroy(2) before proc.destroy(1) in `%s` -> %s' % (LC.render(cases[i]), 'rejected' if r2 else 'ACCEPTED'))
+    # 3. a missing hook: the start of a process goroutine
+    t = copy.deepcopy(traces[i])
+    del t[pos(t, 'proc.exec', 2)]
+    _, r3 = LC.validate(ck, {i: t}, 'st3')
+    common.log('selftest: proc.exec(2) removed -> %s' % ('rejected' if r3 else 'ACCEPTED'))
+    # 4. try mode, `false ; true`: the block is abandoned after the failure, a spawn of the second command is not explainable
+    i = first(lambda c, t: c['mode'] == 'try' and len(c['prog']) == 2 and c['prog'][1]['op'] == ';' and c['prog'][0]['exit'] == 1)
+    t = copy.deepcopy(traces[i])
+    e = pos(t, 'end')
+    t[e:e] = [{'ev': 'rm.spawn'}, {'ev': 'proc.exec', 'k': 2}]
+    _, r4 = LC.validate(ck, {i: t}, 'st4')
+    common.log('selftest: try { false ; true } with the second command started -> %s' % ('rejected' if r4 else 'ACCEPTED'))
+    return good and bool(r1) and bool(r2) and bool(r3) and bool(r4)
